@@ -123,9 +123,17 @@ def gen_pair(rng):
             lat2 = lat1 + rng.uniform(-1, 1) * 10 ** rng.uniform(-8, 2)
             if rng.random() < 0.5:
                 lon1, lon2 = lon2, lon1
-        elif r < 0.94:
+        elif r < 0.90:
             kind = 'far'
             lat2, lon2 = sph_dest(lat1, lon1, rng.uniform(0, 360), math.radians(rng.uniform(170, 178)))
+        elif r < 0.94:
+            # the edge of the domain, where the lambda iteration needs most passes: the antipode displaced by 2..3 deg,
+            # mostly in latitude, end points at low and middle latitudes
+            kind = 'far-edge'
+            lat1 = rng.uniform(-60, 60)
+            d = rng.uniform(2.0, 3.0) * rng.choice([-1, 1])
+            lat2 = max(-89.0, min(89.0, -lat1 + d))
+            lon2 = wrap180(lon1 + 180.0 + rng.uniform(-0.6, 0.6))
         else:
             kind = 'short'
             if rng.random() < 0.4:
